@@ -53,7 +53,7 @@ def core_paths(prog, fname, cond_events=()):
     crate = prog.crate(WB)
     f = crate.fn(f'{CORE}::{fname}')
     fall = fallibility(prog)
-    tr = Tracer(crate, classify_core(fall), value_of_call=fall.value_of, cond_events=cond_events, max_paths=20000)
+    tr = Tracer(crate, classify_core(fall), value_of_call=fall.value_of, cond_events=cond_events, max_paths=20000, inline_local=True)
     return f, tr.run_fn(f)
 
 
